@@ -61,6 +61,10 @@ def plan(seed, subbatch):
     start = world.pick_start(cfg, base_s)
     pre, ops, fired, rows = planlib.stream_and_schedule(seed, subbatch, n, base_s, start, {}, burst, 0.0,
                                                         regimes=regimes, regime_len=(2, 15))
+    if fn in PATTERNS and sub_rng(seed, "shapes").random() < 0.5:
+        # pattern-shaped candles with proportions around the functions' thresholds (the rows are shared with the ops)
+        every = list(pre) + [r for op in ops if op["op"] == "append" for r in op["candles"]]
+        fired["pattern_shapes_injected"] += planlib.inject_shapes(sub_rng(seed, "shapes-at"), every)
     tf = None
     if cfg.random() < 0.3:
         # the whole Hexital on a collapsing timeframe: the newest bucket is merged into between evaluations
